@@ -1,9 +1,10 @@
 SPECIFICATION SpecDiverge
 CONSTANTS
     Catalogue <- McCatalogue
+    SelIds = {1, 2, 3, 4, 5, 6, 7}
     MaxSegs = 3
     Dev = {"SamePrefixOnly"}
     FieldBytes <- McFieldBytes
-    NormOf <- McNormOf
+    NormTable <- McNormTable
 INVARIANT AllRefine
 CHECK_DEADLOCK FALSE
